@@ -218,7 +218,7 @@ fn dump<'tcx>(tcx: TyCtxt<'tcx>, name: &str) -> J {
             DefKind::Const { .. } | DefKind::AssocConst { .. } => {
                 let t = tcx.type_of(did).instantiate_identity().skip_norm_wip();
                 let mut val = J::Null;
-                if tcx.generics_of(did).count() == 0 && !matches!(tcx.def_kind(tcx.parent(did)), DefKind::Trait) {
+                if !tcx.generics_of(did).requires_monomorphization(tcx) && !matches!(tcx.def_kind(tcx.parent(did)), DefKind::Trait) {
                     if let Ok(v) = tcx.const_eval_poly(did) {
                         if let Some(si) = v.try_to_scalar_int() {
                             val = J::I(si.to_bits_unchecked() as i128);
